@@ -8,36 +8,32 @@ Subject: the executable model `Model/Tsne.lean` of `tsne::TSNE` / `tsne::VpTree`
 `Gen/TsneOps.lean` is regenerated from the source on every run, so editing the operator of the distance routine
 re-states `sqEuclid_refuted`).
 
-Findings kept here as checked refutations (each reproduced on the real code by the check):
-  * `sqEuclid_refuted`      (F-TSNE-DD)     `DD_map.noalias() = -2 XᵀX` overwrites the norm terms;
-  * `sqEuclid_not_metric`, `bh_neighbours_refuted` (F-TSNE-SQDIST)  the VP-tree prunes with the triangle inequality on
-    *squared* distances, for which it fails, and loses a true neighbour on four collinear points.
+History (each defect was first established here as a checked refutation with a witness, reproduced on the real code, and
+repaired; the witnesses stay as regression statements and as corpus/C17/findings.case):
+  * F-TSNE-DD (fixed c675e62)      `DD_map.noalias() = -2 XᵀX` overwrote the norm terms — `sqEuclid_operator_matters`;
+  * F-TSNE-SQDIST (fixed 7e078b7)  the VP-tree pruned with the triangle inequality on *squared* distances —
+    `sqDistance_not_metric`, `bh_neighbours_witness`.
 -/
 namespace TapkeeVerif.Tsne
 open TapkeeVerif
 
 /-! ### the squared-distance routine -/
 
-/- FULL STATEMENT (false of the code as it stands):
-     ∀ N D (X : Mat N D K) n m, sqDist X n m = sqEuclid X n m        (DD n m = ‖x_n − x_m‖²) -/
+/-- **`DD n m = ‖x_n − x_m‖²`** for every matrix over every field (the operator of the routine's last statement is
+    regenerated from the source: with `=` instead of `+=` this theorem stops compiling) -/
+theorem sqEuclid_correct {K : Type} [Field K] {N D : Nat} (X : Mat N D K) (n m : Fin N) :
+    sqDist X n m = sqEuclid X n m := by
+  have : Gen.TsneOps.ddAccumulate = true := by decide
+  simp only [sqDist, this]
+  exact sqDistWith_true_eq X n m
 
-/-- two points 0 and 1 on a line: the routine returns 0 for their squared distance -/
-theorem sqEuclid_refuted :
-    ¬ (∀ (N D : Nat) (X : Mat N D Rat) (n m : Fin N), sqDist X n m = sqEuclid X n m) := by
+/-- the old defect as a statement about the operator: with `=` the routine returns 0 for the points 0 and 1 of a line -/
+theorem sqEuclid_operator_matters :
+    ¬ (∀ (N D : Nat) (X : Mat N D Rat) (n m : Fin N), sqDistWith false X n m = sqEuclid X n m) := by
   intro h
   have := h 2 1 (fun n _ => if n = 0 then 0 else 1) 0 1
   revert this
   decide +kernel
-
-/-- … and it is exactly the assignment operator: with `+=` the routine is correct, for every matrix over every field -/
-theorem sqEuclid_partial {K : Type} [Field K] {N D : Nat} (X : Mat N D K) (n m : Fin N) :
-    sqDistWith true X n m = sqEuclid X n m := sqDistWith_true_eq X n m
-
-/-- what it returns instead: the Gram term alone -/
-theorem sqDist_as_written {K : Type} [Field K] {N D : Nat} (X : Mat N D K) (n m : Fin N) :
-    sqDist X n m = -(1 + 1) * sumFin D (fun d => X n d * X m d) := by
-  have : Gen.TsneOps.ddAccumulate = false := by decide
-  simp [sqDist, this, sqDistWith]
 
 /-! ### the perplexity bisection (over an abstract, strictly decreasing entropy oracle) -/
 section
@@ -116,29 +112,38 @@ theorem symmetrizeCsr_small3_partial : ∀ k < 64, symChecks 3 (8 * k + 5) = tru
 
 /-! ### Barnes–Hut neighbours: the distance handed to the VP-tree -/
 
-/-- `tsne::euclidean_distance` (no square root) violates the triangle inequality: 0, 1, 3 on a line -/
-theorem sqEuclid_not_metric :
-    ¬ (∀ a b c : List Rat, vpDistance a c ≤ vpDistance a b + vpDistance b c) := by
+/-- the squared distance violates the triangle inequality (0, 1, 3 on a line) — why the tree must not prune with it -/
+theorem sqDistance_not_metric :
+    ¬ (∀ a b c : List Rat, sqDistance a c ≤ sqDistance a b + sqDistance b c) := by
   intro h
   have := h [0] [1] [3]
   revert this
   decide +kernel
 
-/- FULL STATEMENT (`bh_neighbours_true`; C02 proves the analogue for tapkee's own VP-tree):
+/- FULL STATEMENT (`bh_neighbours_true`; C02 proves the analogue for tapkee's own VP-tree), not proved for this class:
      (∀ a b c, dist a c ≤ dist a b + dist b c) → dist symmetric, zero on the diagonal →
-     the K+1 search returns the K+1 smallest distances.
-   Its hypothesis fails for the distance the code passes (`sqEuclid_not_metric`), and so does its conclusion: -/
+     the K+1 search on any tree `vpBuild` can produce returns the K+1 smallest distances.
+   The check replays the search on every dumped tree and compares the returned items with brute force (exact, on
+   squared distances); the old failing witness is kept below. -/
 
 /-- the witness tree: items 0, 2, 3, 4 on a line, vantage point = first item of each range (`uniform_random() = 0`) -/
 def witnessItems : List (Nat × List Rat) := [(0, [0]), (1, [2]), (2, [3]), (3, [4])]
 
-/-- searching the 2 nearest items of the point `2` (itself and `3`, squared distances 0 and 1) returns squared
-    distances 0 and 4: the branch holding `3` is pruned because `dist + τ = 4 + 4 < 9 = threshold` -/
-theorem bh_neighbours_refuted :
-    let built := vpBuild (fun _ _ => 0) 5 0 0 witnessItems
-    let items : Nat → List Rat := fun pos => (built.2.1.getD pos (0, [])).2
-    (vpSearchTop items built.1 [2] 2).map (·.2) = [0, 4] ∧
-    (sortBy (fun a b => decide (a ≤ b)) (witnessItems.map fun it => vpDistance it.2 [2])).take 2 = [0, 1] := by
+/-- a square root that is exact on the perfect squares this witness meets -/
+def sqrtW (x : Rat) : Rat :=
+  if x = 1 then 1 else if x = 4 then 2 else if x = 9 then 3 else if x = 16 then 4 else 0
+
+/-- searching the 2 nearest items of the point `2`: with the distance the code uses now (the metric) the search
+    returns the item at `3`; with the squared distance it used before, the branch holding `3` is pruned
+    (`dist + τ = 4 + 4 < 9 = threshold`) and the item at `0` (squared distance 4) comes back instead of the one at
+    squared distance 1 -/
+theorem bh_neighbours_witness :
+    (let built := vpBuild (vpDistance sqrtW) (fun _ _ => 0) 5 0 0 witnessItems
+     let items : Nat → List Rat := fun pos => (built.2.1.getD pos (0, [])).2
+     (vpSearchTop (vpDistance sqrtW) items built.1 [2] 2).map (fun e => sqDistance (items e.1) [2]) = [0, 1]) ∧
+    (let built := vpBuild sqDistance (fun _ _ => 0) 5 0 0 witnessItems
+     let items : Nat → List Rat := fun pos => (built.2.1.getD pos (0, [])).2
+     (vpSearchTop sqDistance items built.1 [2] 2).map (·.2) = [0, 4]) := by
   decide +kernel
 
 /-! ### gradients -/
